@@ -209,3 +209,45 @@ func VerifC07ScalarsV2()     { verifC07Scalars(2, true) }
 func VerifC07ScalarsSignV2() { verifC07Scalars(2, false) }
 func VerifC07DigestV2()      { verifC07Adjacent(2, false, 1) }
 func VerifC07IdV2()          { verifC07Adjacent(2, true, 1) }
+
+// verifC07Args: two transactions that agree everywhere except in the argument map of their contract
+// request: two entries each, keys (1..2 bytes, distinct) and values (0..2 bytes) arbitrary. Equal
+// digests must imply equal maps (no bytes move between a key, its value and the neighbouring entry).
+func verifC07Args(version int32, includeSigns bool) {
+	mk := func(tag string) (*pb.Transaction, [2][]byte, [2][]byte) {
+		t := verifSkeleton(version)
+		for i, f := range verifFields() {
+			f.set(t, []byte{byte('a' + i%20)})
+		}
+		var ks, vs [2][]byte
+		args := map[string][]byte{}
+		for i := 0; i < 2; i++ {
+			ks[i] = verifBytes(tag+".key", 1+vrt.Choice("key-len", 2), version < 3)
+			vs[i] = vrt.Bytes(tag+".val", vrt.Choice("val-len", 3))
+		}
+		vrt.Assume(string(ks[0]) != string(ks[1]))
+		args[string(ks[0])] = vs[0]
+		args[string(ks[1])] = vs[1]
+		t.ContractRequests[0].Args = args
+		return t, ks, vs
+	}
+	t, tk, tv := mk("a")
+	u, uk, uv := mk("b")
+	var dt, du []byte
+	if includeSigns {
+		dt, _ = MakeTransactionID(t)
+		du, _ = MakeTransactionID(u)
+	} else {
+		dt, _ = MakeTxDigestHash(t)
+		du, _ = MakeTxDigestHash(u)
+	}
+	eq := verifSame(dt, du)
+	// the maps are equal iff they hold the same two pairs, in either order
+	same := func(i, j int) bool { return verifSame(tk[i], uk[j]) && verifSame(tv[i], uv[j]) }
+	equalMaps := same(0, 0) && same(1, 1) || same(0, 1) && same(1, 0)
+	vrt.Cover("digests-equal", eq)
+	vrt.Cover("digests-differ", !eq)
+	vrt.Assert(!eq || equalMaps, "equal-digests-imply-equal-argument-maps")
+}
+
+func VerifC07ArgsV3() { verifC07Args(3, false) }
